@@ -106,6 +106,8 @@ class Exec(SpecMixin, ExprMixin, CallMixin, BuiltinMixin, StmtMixin, EventMixin)
     self.n_pruned = 0
     self.axioms = []
     self.pure_axiomatised = set()
+    self.try_depth = 0
+    self.frame_envs = []
 
   # ---------------------------------------------------------------- plumbing
 
